@@ -263,3 +263,13 @@ THEOREMS = THEOREMS + [P + t for t in ["C02_bit_exact_nested2R", "C02_overlap_if
                                        "descs2R_encodeMessage", "field_reads_zero", "reserved_reads_zero", "Comp.ofU16LE_foot",
                                        "Descs2R.padOk_of_check", "Descs2R.ofBase_lay", "exRes_layout", "exResOverlap_layout",
                                        "exU16Req_layout"]]
+
+
+# W29 (compu DOP as MULTIPLEXER switch key / DYNAMIC-LENGTH-FIELD count, W23 leaves: Desc3b mirrors Described3b) — appended
+# (C02_bit_exact_nested3 / C02_overlap_iff_nested3 of W21 live in Proofs/CompCompuBitsMsg.lean, which this target imports)
+LEAN_TARGETS = LEAN_TARGETS + ["OdxVerif.Props.C02Nested3b"]
+THEOREMS = THEOREMS + [P + t for t in ["C02_bit_exact_nested3b", "C02_overlap_iff_nested3b", "C02_bit_exact_nested3",
+                                       "C02_overlap_iff_nested3", "Desc3b.foot", "Desc3b.described", "Descs3b.footTop",
+                                       "descs3b_encodeMessage", "foot2_muxConv", "foot2_dynLenConv", "MuxLayout.okConv_lin",
+                                       "DynLayout.okConv_lin", "Descs3b.ofBase_lay", "Descs3b.ofBase_ok", "exD9_ok", "exD9_layout",
+                                       "exD9_enc", "exD9_disj", "exD12_ok", "exD12_layout", "exD13_layout"]]
